@@ -434,8 +434,17 @@ def run_c18(cfg: HCfg, c: Ctx) -> Any:
     c.heavy()
     entered: List[str] = []
 
+    stamp = [False]
+    executions = [0]
+
     def value_of(l: str, args: Any) -> Any:
-        return None if l == none_node else SymVal(vapp("f_" + l, [lift(a) for a in args]))
+        if l == none_node:
+            return None
+        extra = []
+        if stamp[0] and setup0 and l == labels[0]:
+            executions[0] += 1
+            extra = [lift(executions[0])]  # which execution of the setup node produced the value
+        return SymVal(vapp("f_" + l, [lift(a) for a in args] + extra))
 
     def make(l: str) -> Any:
         def fn(*args):  # type: ignore[no-untyped-def]
@@ -548,6 +557,19 @@ def run_c18(cfg: HCfg, c: Ctx) -> Any:
                 setup_done_on_d = True
             if rnd == 1:
                 c.cover("w_second_round")
+        if setup0 and cfg.length >= 3:
+            # a cache written by ANOTHER instance holds another value for the setup node: an execution restarted from it
+            # may use the cached value, but this instance keeps the value its own setup node produced the first time
+            stamp[0] = True
+            mine = copy.deepcopy(pristine)
+            other = copy.deepcopy(pristine)
+            first = _run(mine, c.val("x_mine"))  # the setup node runs here for the first time on `mine`
+            _run(other.executor(cache_in=path), c.val("x_other"))  # ... and a second time in the world, on `other`
+            _run(mine.executor(from_cache=path), c.val("x_restart_foreign"))
+            later = _run(mine, c.val("x_later"))
+            c.check(veq(later[0], first[0]), "after an execution restarted from another instance's cache the DAG no longer sees the value its setup node produced the first time",
+                    prop="C18", data={**data, "first": first[0], "later": later[0]})
+            c.cover("w_foreign_cache")
     finally:
         try:
             os.unlink(path)
